@@ -19,7 +19,7 @@ from . import gen_resp as G
 from . import lib, resplib
 
 PID = "C02"
-SAFE = {b"ping", b"set", b"get", b"rpush", b"lrange", b"llen", b"strlen", b"exists", b"del", b"type", b"append"}
+SAFE = {b"ping", b"set", b"get", b"rpush", b"lrange", b"llen", b"strlen", b"exists", b"del", b"type", b"append", b"mset", b"mget", b"setrange"}
 
 
 # ----------------------------------------------------------------------------- in-process part
@@ -191,8 +191,10 @@ def plan_case(cid, stream, sizes, pause, mev, registered, marker_key=None):
         after = evs[evs.index("ERR") + 1:]
         if any(e != "EOF" for e in after):
             mode = "E"    # input remained when the error was raised: the close cannot be due to our EOF
-    probe, expect_list = b"", None
-    if marker_key is not None:
+    probe, expect_list, expect_probe = b"", None, None
+    if isinstance(marker_key, tuple):      # ("alias", probe command bytes, expected reply text): see alias_case
+        probe, expect_probe = marker_key[1], marker_key[2]
+    elif marker_key is not None:
         probe = G.encode_cmd([b"LRANGE", marker_key, b"0", b"-1"])
         expect_list = []
         # a nil bulk ($-1) as an element of a command array is not an argument byte string: Go keeps
@@ -209,7 +211,7 @@ def plan_case(cid, stream, sizes, pause, mev, registered, marker_key=None):
                     expect_list += c[2:]
             elif name in registered:
                 expect_list = None    # some other command reached the keyspace: no prediction
-    meta = dict(n=len(executed), end=end, events=events, expect_list=expect_list, marker_key=marker_key)
+    meta = dict(n=len(executed), end=end, events=events, expect_list=expect_list, marker_key=marker_key, expect_probe=expect_probe)
     return resplib.TcpCase(cid, stream, sizes, mode, pause, probe, meta)
 
 
@@ -246,6 +248,11 @@ def judge_tcp(case, res, dec, pdec):
                         replies=replies[:30], n_replies=len(replies), n_executed=n, conn_end_model=m["end"])
     if res["witness"] != "WOK":
         return dict(what="another (long-lived) connection stopped working", witness=res["witness"])
+    if m.get("expect_probe") is not None:
+        got, pleft = pdec
+        if pleft or got != [m["expect_probe"]]:
+            return dict(what="keyspace after the stream differs: an argument stored by one command was changed when an earlier stored argument grew "
+                             "(the arguments of a command must not share memory)", reply_observed=got, reply_expected=m["expect_probe"])
     if m["expect_list"] is not None:
         want = "A[" + ",".join("b:" + (x.decode() if x.startswith(b"#") and len(x) > 18 else resplib.digest(x)) for x in m["expect_list"]) + "]"
         got, pleft = pdec
@@ -275,7 +282,7 @@ def confirm_tcp(d, server, c, st, runs=3, need=2):
         if not server.alive():
             server.start()
             st["server_restarts"] += 1
-        if c.meta.get("marker_key") is not None:
+        if isinstance(c.meta.get("marker_key"), bytes):
             resplib.run_tcp(server, d, [resplib.TcpCase("del", G.encode_cmd([b"DEL", c.meta["marker_key"]]))], tag="cdel")
         _, v = run_and_judge(server, d, [c], "iso")
         v1 = v[c.id]
@@ -289,6 +296,34 @@ def confirm_tcp(d, server, c, st, runs=3, need=2):
         elif i + 1 - sum(seen.values()) > runs - need:
             return None      # cannot reach `need` failures any more
     return None
+
+
+def alias_case(r, seed, i):
+    tag = b"ta" + hashlib.sha1(b"%d-%d" % (seed, i)).hexdigest()[:12].encode()
+    n = r.choice([2, 3, 3, 4])
+    keys = [tag + b":k%d" % j for j in range(n)]
+    short = r.choice([1, 2, 3, 5])
+    vals = [bytes(r.choice(b"abcdefghijklmnopqrstuvwxyz") for _ in range(short)) for _ in range(n)]
+    grow = bytes(r.choice(b"ABCDEFGHIJKLMNOPQRSTUVWXYZ-") for _ in range(r.choice([1, 2, 4, 9, 17, 40])))
+    db = dict(zip(keys, vals))
+    cmds = [[b"MSET"] + [x for kv in zip(keys, vals) for x in kv]]
+    j = r.randrange(n - 1)            # an argument that is not the last one stored
+    m = r.randrange(4)
+    if m == 0:
+        cmds.append([b"APPEND", keys[j], grow])
+        db[keys[j]] += grow
+    elif m == 1:
+        cmds += [[b"APPEND", keys[j], grow[:1]], [b"APPEND", keys[-1], b"-"], [b"APPEND", keys[j], grow]]
+        db[keys[j]] += grow[:1] + grow
+        db[keys[-1]] += b"-"
+    elif m == 2:
+        cmds.append([b"SETRANGE", keys[j], b"%d" % len(vals[j]), grow])
+        db[keys[j]] += grow
+    else:
+        cmds.append([b"SETRANGE", keys[j], b"0", grow])
+        db[keys[j]] = grow + db[keys[j]][len(grow):]
+    want = "A[" + ",".join("b:" + db[k].hex() for k in keys) + "]"
+    return ("ta%d" % i, G.encode_pipeline(cmds), ("alias", G.encode_cmd([b"MGET"] + keys), want))
 
 
 def tcp_part(ctx, d, inproc_stats):
@@ -315,6 +350,11 @@ def tcp_part(ctx, d, inproc_stats):
             key = b"tb" + tag + b":log"
             val = G.boundary_payload(r, n, e)
             raw.append(("tb%d_%d" % (n, e[0]), G.encode_pipeline([[b"RPUSH", key, b"m0"], [b"RPUSH", key, val], [b"RPUSH", key, b"m1"], [b"PING"]]), key))
+    # ALIASING family: one command stores several of its arguments, a later one grows / rewrites an
+    # EARLIER stored value in place, another connection reads all of them back (decoding alone cannot
+    # see whether the decoded arguments of a command share memory)
+    for i in range(60 if ctx.tier == "quick" else 600):
+        raw.append(alias_case(r, ctx.seed, i))
     pool = [l for l in inproc_stats["lines"] if l[0] in "esgm"]
     for i, l in enumerate(r.sample(pool, min(ns, len(pool)))):
         raw.append(("ts%d" % i, resplib.unhex(l.split("\t")[1]), None))
@@ -337,6 +377,7 @@ def tcp_part(ctx, d, inproc_stats):
     st = dict(tcp_cases=len(cases), tcp_skipped=skipped, modes=collections.Counter(c.mode for c in cases),
               tcp_closed_on_error=sum(1 for c in cases if c.meta["end"] == "CLOSED-ON-ERROR"),
               tcp_marker_cases=sum(1 for c in cases if c.meta["expect_list"] is not None),
+              tcp_aliasing_cases=sum(1 for c in cases if c.meta.get("expect_probe") is not None),
               tcp_commands_executed=sum(c.meta["n"] for c in cases), server_restarts=0)
     server = resplib.Server(d)
     try:
@@ -373,8 +414,8 @@ def tcp_part(ctx, d, inproc_stats):
                                    process_died=True, server_stderr=server.stderr_tail())
                 else:
                     notes.append(dict(case="(batch)", what="the server process died once during the batch; not reproduced", reproduced=False))
-            if failing is not None and failing.get("stream"):
-                failing = shrink_tcp(d, server, failing, registered, st)
+            if failing is not None and failing.get("stream") and not isinstance(failing.get("marker_key"), tuple):
+                failing = shrink_tcp(d, server, failing, registered, st)     # (an aliasing case is 2-4 commands already)
                 failing["server_stderr"] = server.stderr_tail()
         st["unreproduced_discrepancies"] = notes[:10]
         st["witness_checks"] = len(res)
@@ -392,7 +433,7 @@ def one_tcp(d, server, stream, sizes, registered, marker_key, st, selfclose_ms=2
     c = plan_case("q", stream, sizes, 0, mev, registered, marker_key)
     if c is None:
         return None, False
-    if marker_key is not None:     # start from an empty list whatever earlier runs left behind
+    if isinstance(marker_key, bytes):     # start from an empty list whatever earlier runs left behind
         resplib.run_tcp(server, d, [resplib.TcpCase("del", G.encode_cmd([b"DEL", marker_key]))], tag="qdel")
     _, v = run_and_judge(server, d, [c], "q", selfclose_ms)
     if not server.alive():
@@ -456,6 +497,8 @@ def replay(ctx, d):
             registered = registered_commands(d)
             sizes = r.get("sizes") or "one"
             key = resplib.unhex(r["marker_key_hex"]) if r.get("marker_key_hex") else None
+            if r.get("probe_hex"):
+                key = ("alias", resplib.unhex(r["probe_hex"]), r["expect_probe"])
             v, usable = one_tcp(d, server, stream, sizes, registered, key, st)
             print("tcp:", "not usable over TCP" if not usable else (v or "as the model predicts"))
             if v:
@@ -495,7 +538,9 @@ def run(ctx):
         s = failing.pop("stream")
         failing["stream_hex"] = resplib.hexs(s)
         failing["stream_readable"] = readable(s)
-        if failing.get("marker_key") is not None:
+        if isinstance(failing.get("marker_key"), tuple):
+            failing["probe_hex"], failing["expect_probe"] = resplib.hexs(failing["marker_key"][1]), failing["marker_key"][2]
+        elif failing.get("marker_key") is not None:
             failing["marker_key_hex"] = resplib.hexs(failing["marker_key"])
         failing.pop("marker_key", None)
         if not isinstance(failing.get("sizes", ""), str):
